@@ -133,6 +133,72 @@ def run(facts, rep, tier):
     opid(F, rep)
     group(F, rep)
     scopeexists(F, rep)
+    foldorder(F, rep)
+
+
+FOLD_ORDER = (
+    # function suffix, (ADT suffix, field) iterated, why the iteration has to run back to front
+    ("AstLowering>::lower_statement", ("ast::IfStmt", "elif_branches"),
+     "the elif chain is built inside-out: each elif wraps the chain built so far into its else branch, so the LAST elif "
+     "must be processed first; forward iteration nests the last elif outermost and tests the branches in reverse order"),
+    ("AstLowering>::lookup_var", ("lower::AstLowering", "scopes"),
+     "scopes is a stack with the innermost scope last: the first hit must be the innermost binding (shadowing)"),
+)
+
+
+def foldorder(F, rep):
+    """FOLDORDER — two iterations in lowering are correct only back to front (reasons in FOLD_ORDER). If the function
+    iterates over the field at all, the iterator passes through `.rev()` before it is consumed. (No iteration in the
+    function — e.g. after a rewrite as a recursion — leaves the obligation vacuous, it is not an alarm.)"""
+    from engines import derived_locals, callee_generic, body_and_closures
+    for suf, (adt_suf, field), why in FOLD_ORDER:
+        f = F.one_fn(suf)
+        if not rep.anchor("FOLDORDER", suf, f):
+            continue
+        own = body_and_closures(F, f.path)
+        for p in own:
+            g = F.fns[p]
+            for bi, t in g.calls():
+                gg = callee_generic(t) or ""
+                if not (gg.endswith("::iter") or gg.endswith("IntoIterator::into_iter")) or not t["args"]:
+                    continue
+                pl = op_place(t["args"][0])
+                if pl is None:
+                    continue
+                # does the receiver derive from the field?
+                cur, hit = pl, False
+                for _ in range(8):
+                    if any(e[0] == "f" and e[1].endswith(adt_suf) and e[3] == field for e in cur["p"]):
+                        hit = True
+                        break
+                    d = g.single_def(cur["l"])
+                    if d is None:
+                        break
+                    if d[2] == "call" and ((callee_generic(d[3]) or "").endswith("Deref::deref") or
+                                           (callee_generic(d[3]) or "").endswith("::as_slice")) and d[3]["args"]:
+                        nxt = op_place(d[3]["args"][0])
+                    elif d[2] == "assign" and d[3]["r"] in ("ref", "cfd"):
+                        nxt = d[3]["p"]
+                    elif d[2] == "assign" and d[3]["r"] in ("use", "cast"):
+                        nxt = op_place(d[3]["o"])
+                    else:
+                        nxt = None
+                    if nxt is None:
+                        break
+                    cur = nxt
+                if not hit or t["d"]["p"]:
+                    continue
+                its = derived_locals(g, t["d"]["l"])
+                reversed_ = any((callee_generic(t2) or "").endswith("Iterator::rev") and t2["args"] and
+                                op_place(t2["args"][0]) is not None and op_place(t2["args"][0])["l"] in its
+                                for _, t2 in g.calls())
+                inst = "%s:%s" % (suf.split("::")[-1], field)
+                rep.oblige("FOLDORDER", inst, reversed_, sample={"rule": "FOLDORDER", "fn": p, "line": t.get("ln"),
+                                                                 "field": field, "reversed": reversed_})
+                if not reversed_:
+                    rep.add(Finding("FOLDORDER", "FOLDORDER|%s|%s" % (suf.split("::")[-1], field),
+                                    "%s iterates over `%s` front to back: %s" % (suf.split("::")[-1], field, why),
+                                    file=g.file, line=t.get("ln"), fn=p))
 
 
 def opid(F, rep):
